@@ -591,6 +591,12 @@ impl<const N: usize> Payload for [Z; N] {
     }
 }
 
+/// logs that the expression given for field `slot` is being evaluated (C08: initialisers run in declaration order)
+pub fn seq<X>(slot: u8, x: X) -> X {
+    ev(format!("dx:{}", slot));
+    x
+}
+
 pub fn zs<const N: usize>() -> [Z; N] {
     [Z; N]
 }
